@@ -345,7 +345,12 @@ def run_reweighted(unit) -> UnitResult:
                     weights = [float(x) for x in step.weights]
                     out = list(step.apply(problem, ev, rep, src, inds, n, gen))
                     ev.evaluate(problem, out)
-                    survivors = [o.genotype.v for o in out if any(o is i for i in inds)]
+                    # input individuals that are in the output, each counted once (another slice may return an elite again)
+                    surv_objs = []
+                    for o in out:
+                        if any(o is i for i in inds) and all(o is not x for x in surv_objs):
+                            surv_objs.append(o)
+                    survivors = [o.genotype.v for o in surv_objs]
                     log.append((weights, [i.genotype.v for i in inds], survivors, len(out)))
                     if gen == 1 and mode == "reassign":
                         step.weights = list(w2)
